@@ -385,18 +385,28 @@ where
     }
     fn with_loading<T>(&self, r: PlainRef, f: impl FnOnce() -> Result<T>) -> Result<T> {
         let entry = (std::thread::current().id(), r);
+        #[cfg(pdf_rs_pdf_verif)]
+        crate::verif::hook("lguard?", r.id);
         {
             let mut chain = self.chain.lock().unwrap();
             if chain.contains(&entry) {
+                #[cfg(pdf_rs_pdf_verif)]
+                crate::verif::hook("lrecursive", r.id);
                 bail!("Recursive reference");
             }
             chain.push(entry);
+            #[cfg(pdf_rs_pdf_verif)]
+            crate::verif::hook("lpushed", r.id);
         }
         let _defer = Defer(|| {
+            #[cfg(pdf_rs_pdf_verif)]
+            crate::verif::hook("lexit?", r.id);
             let mut chain = self.chain.lock().unwrap();
             if let Some(i) = chain.iter().rposition(|e| *e == entry) {
                 chain.remove(i);
             }
+            #[cfg(pdf_rs_pdf_verif)]
+            crate::verif::hook("lpopped", r.id);
         });
         f()
     }
